@@ -151,6 +151,22 @@ def run_case(case, ctx):
         numpy.random.seed(rs)
         m = ConstraintKMeans(n_clusters=k, strategy=strategy, kmeans0=kmeans0, max_iter=max_iter, random_state=rs,
                              n_init=2)
+        if sub % 4 == 1 and n > k:
+            # history: the same object was first used with the other family of strategies ('weights') on other
+            # rows, then reconfigured with set_params - nothing of that first life may change the sizes
+            try:
+                m0 = ConstraintKMeans(n_clusters=max(2, k - 1), strategy="weights", kmeans0=kmeans0, max_iter=3,
+                                      random_state=rs, n_init=1)
+                Xp = numpy.asarray(X, dtype=float)[: max(k + 1, n // 2)] + 0.5
+                m0.fit(Xp)
+                m0.predict(Xp[:5])
+                m0.set_params(n_clusters=k, strategy=strategy, max_iter=max_iter, n_init=2)
+                m = m0
+                cfg["history"] = "fit(strategy='weights'), predict, set_params(strategy=%r)" % strategy
+                ctx.hit("history.strategy_switch")
+            except Exception:
+                ctx.excluded("history: the preliminary fit with strategy='weights' is not possible on these rows")
+            numpy.random.seed(rs)
         try:
             r = m.fit(Xin)
             err = None
